@@ -35,7 +35,7 @@ func VerifHarness_C06() {
 	case 1:
 		o.ScaleOnStarve = true
 	case 2:
-		o.MaxNodeAge = "1h"
+		o.MaxNodeAge = []string{"1h", "100m"}[verifChoice("maxNodeAge", 2)]
 	}
 	auto := verifShape(7) == 1 // min_nodes/max_nodes left out: the bounds are the cloud group's own, re-read every scan
 	asgMin0 := int64(0)
@@ -110,6 +110,21 @@ func VerifHarness_C06() {
 		verifAssert("C06.idle-band/trigger", verifImplies(bandIdle, verifOr(override, verifAnd(taints == 0, noCap))))
 		verifAssert("C06.scale-up-band/trigger", verifImplies(bandUp, override))
 		verifReachIf("C06.trigger-overrode", verifAnd(verifOr(bandFast, verifOr(bandSlow, bandIdle)), override))
+		if trig == 2 {
+			// max_node_age acts only when an untainted node has outlived it (a few seconds of clock slack)
+			limit := int64(3600)
+			if o.MaxNodeAge == "100m" {
+				limit = 6000
+			}
+			anyOld := false
+			for _, n := range w.nodes {
+				if n.group == g && n.class == tcNone {
+					anyOld = verifOr(anyOld, verifAnd(verifNot(n.cordoned), n.createAge+5 >= limit))
+				}
+			}
+			below := verifOr(bandFast, verifOr(bandSlow, bandIdle))
+			verifAssert("C06.max-age-trigger-needs-an-old-node", verifImplies(verifAnd(below, override), anyOld))
+		}
 		if trig == 1 && uneven {
 			// scale_on_starve is documented to act when a pending pod fits on no node: an override
 			// below the scale-up band needs such a pod
